@@ -193,9 +193,42 @@ func C10(c *core.Ctx) {
 		k := constVal(h.cname)
 		var reserve ssa.Instruction
 		core.Instrs(send, func(in ssa.Instruction) {
+			// effectiveMtu -= k, or reserved += k (subtracted from the MTU afterwards)
 			if b, ok := in.(*ssa.BinOp); ok && b.Op == token.SUB {
 				if kk, isC := core.ConstInt(b.Y); isC && kk == k {
 					reserve = in
+				}
+			}
+			if b, ok := in.(*ssa.BinOp); ok && b.Op == token.ADD {
+				kx, cx := core.ConstInt(b.X)
+				ky, cy := core.ConstInt(b.Y)
+				if (cx && kx == k) || (cy && ky == k) {
+					// the sum must end up subtracted from something
+					var flows func(v ssa.Value, d int) bool
+					flows = func(v ssa.Value, d int) bool {
+						if d > 6 {
+							return false
+						}
+						for _, r := range core.Refs(v) {
+							switch y := r.(type) {
+							case *ssa.BinOp:
+								if y.Op == token.SUB && y.Y == v {
+									return true
+								}
+								if y.Op == token.ADD && flows(y, d+1) {
+									return true
+								}
+							case *ssa.Phi:
+								if flows(y, d+1) {
+									return true
+								}
+							}
+						}
+						return false
+					}
+					if flows(b, 0) {
+						reserve = in
+					}
 				}
 			}
 		})
